@@ -117,6 +117,7 @@ BadV(i)  == [c |-> "atom", a |-> "bad", f |-> i]
 NoneV    == [c |-> "atom", a |-> "none", f |-> 0]
 XtraV(n) == [c |-> "atom", a |-> "xtra", f |-> n]
 DflV(i)  == [c |-> "atom", a |-> "dfl", f |-> i]      \* the declared default of field i
+FalsyV(i) == [c |-> "atom", a |-> "falsy", f |-> i]    \* a well-typed falsy value of field i that is NOT its default (0, "", None, [])
 AbsentV  == [c |-> "atom", a |-> "absent", f |-> 0]    \* the field is not there at all (a TypedDict key that is not required)
 Dict(ks, vs) == [c |-> "dict", ks |-> ks, vs |-> vs, xs |-> <<>>]
 List(xs) == [c |-> "list", ks |-> <<>>, vs |-> <<>>, xs |-> xs]
@@ -133,7 +134,7 @@ MaxIdx(CK) == CHOOSE m \in {k.i : k \in CK} : \A k \in CK : k.i <= m
 NoRes == [errs |-> {}, vals |-> {}, extra |-> Dict(<<>>, <<>>)]
 Err(trail, kind, keys) == [trail |-> trail, kind |-> kind, keys |-> keys]
 \* a well-typed value of field i (the declared default is one; a field typed Any takes everything)
-LeafOkS(shape, i, d) == shape[i].ty = "any" \/ d \in {GoodV(i), DflV(i)}
+LeafOkS(shape, i, d) == shape[i].ty = "any" \/ d \in {GoodV(i), DflV(i), FalsyV(i)}
 
 RECURSIVE SetToSeqK(_)
 SetToSeqK(S) == IF S = {} THEN <<>> ELSE LET x == CHOOSE y \in S : TRUE IN <<x>> \o SetToSeqK(S \ {x})
